@@ -28,7 +28,7 @@ func checkFormulaProperty(p *Program, c *Check, id string) {
 		"real arithmetic: floating-point rounding, overflow and NaN propagation are not modelled",
 		"the reference implementations in /verif/spec state the property's formulas correctly (reviewed by hand against properties.jsonl)",
 		"callees are compared by identity: each anchored callee has its own obligation",
-		"OWN-3/OWN-4: functions outside the repository neither append to nor retain their arguments; closures capturing a per-iteration variable are left to E5")
+		"OWN-3/OWN-4: functions outside the repository neither append to nor retain their arguments")
 	ruleE5(p, c, 1)
 	if id != "C09" {
 		// aliasing rules on the functions anchored in this property (C09 runs them on the whole request path)
